@@ -11,7 +11,7 @@ RIDS = {'C08': ['C08', 'C08Q'], 'C07': ['C07']}     # replay-crate dispatch ids 
 _cache = {}
 
 
-def build_replay():
+def build_replay(pid=None):
     """(re)build the replay crate against /repo's current working tree; returns path of the binary or None"""
     if os.environ.get('VERIF_REPO', '/repo') != '/repo':
         return None   # scratch source copies are not what the replay crate links against
@@ -25,7 +25,17 @@ def build_replay():
     p = subprocess.run(['timeout', '1500', 'cargo', 'build', '--offline', '--quiet'], cwd=REPLAY, env=env,
                        stdout=subprocess.PIPE, stderr=subprocess.STDOUT, text=True)
     if p.returncode != 0:
-        return None
+        # some OTHER property's module may no longer compile against this tree (changed types): build only this property's modules
+        if not pid:
+            return None
+        feats = ','.join(r.lower() for r in RIDS.get(pid, [pid]))
+        tdir = os.path.join(REPLAY, 'target', 'only-' + pid)
+        env2 = dict(env, CARGO_TARGET_DIR=tdir)
+        p = subprocess.run(['timeout', '1500', 'cargo', 'build', '--offline', '--quiet', '--no-default-features', '--features', feats], cwd=REPLAY, env=env2,
+                           stdout=subprocess.PIPE, stderr=subprocess.STDOUT, text=True)
+        if p.returncode != 0:
+            return None
+        return os.path.join(tdir, 'debug', 'vx-replay')
     return os.path.join(REPLAY, 'target', 'debug', 'vx-replay')
 
 
@@ -35,7 +45,7 @@ def search(pid, seed, tier='quick'):
         return _cache[pid]
     res = {}
     if pid in HAVE:
-        binary = build_replay()
+        binary = build_replay(pid)
         if binary:
             for rid in RIDS.get(pid, [pid]):
                 p = subprocess.run(['timeout', '900', binary, rid, str(seed), tier], stdout=subprocess.PIPE, stderr=subprocess.PIPE, text=True)
@@ -176,7 +186,7 @@ def post_checks(pid, tier, seed, evidence):
         return kani_second_backend(pid, evidence)
     if pid not in BOUNDED:
         return []
-    binary = build_replay()
+    binary = build_replay(pid)
     info = dict(BOUNDED[pid], bound=BOUNDED[pid]['bound'][tier], label='BOUNDED - not counted as proved')
     viol = []
     if not binary:
